@@ -445,6 +445,55 @@ def rfcEffect (t : FS) (r : Req) : FS :=
     if under dst q then t (src ++ q.drop dst.length) else if under src q then none else t q
   | .get => t
 
+/-! #### when a request must succeed (status side of the reference)
+
+  Independent of the implementation model: stated on the lookup function only.  RFC 4918 §9.3.1
+  (MKCOL on an unmapped URL whose parent is a collection), §9.6 (DELETE), §9.7 (PUT: parent
+  collection exists, target is not a collection), §9.8.4/§9.8.5/§9.9.3 (COPY/MOVE: destination
+  parent exists, Overwrite: F and existing destination fail, source ≠ destination), §10.4/RFC 7232
+  preconditions (`Pre.holds`), plus the request rules lighttpd documents (no PUT on a path ending
+  in '/', a collection source is addressed with '/', `Depth: 1` / MOVE with `Depth: 0` refused,
+  DELETE of a collection only with Depth infinity, no request body, no fragment). -/
+
+def isColl (t : FS) (p : Path) : Bool := t p == some .dir
+
+def isFileAt (t : FS) (p : Path) : Bool :=
+  match t p with
+  | some (.file _) => true
+  | _ => false
+
+def parentColl (t : FS) (p : Path) : Bool := p != [] && t p.dropLast == some .dir
+
+/-- the destination can be created or (with Overwrite) replaced -/
+def destFree (t : FS) (d : Path) (ow : Bool) : Bool :=
+  (t d).isNone && parentColl t d || (t d).isSome && ow
+
+def rfcPre (t : FS) (r : Req) : Bool :=
+  let src := r.src.segs
+  match r.m with
+  | .put =>
+    !r.src.slash &&
+    (match r.range with
+     | some rg => r.pre.holds (t src).isSome && rg.isSome && isFileAt t src
+     | none =>
+       if r.body.isEmpty then r.pre.holds (t src).isSome && ((t src).isNone && parentColl t src || isFileAt t src)
+       else parentColl t src && r.pre.holds (t src).isSome && !isColl t src)
+  | .mkcol => r.body.isEmpty && (t src).isNone && parentColl t src
+  | .delete =>
+    r.body.isEmpty && !r.frag && r.pre.holds true &&
+      (isColl t src && !(r.depth == .zero || r.depth == .one) || isFileAt t src && !r.src.slash)
+  | .get => true
+  | _ =>
+    match r.dst with
+    | .ok d =>
+      r.body.isEmpty && r.ow != .bad && !nested r.src d && r.pre.holds true &&
+      (if isColl t src then
+         r.src.slash && r.depth != .one &&
+         (if r.depth == .zero then r.m == .copy && (isColl t d.segs || (t d.segs).isNone && parentColl t d.segs)
+          else if src == d.segs then r.ow.overwrite else destFree t d.segs r.ow.overwrite)
+       else isFileAt t src && !r.src.slash && !d.slash && destFree t d.segs (r.ow.overwrite && isFileAt t d.segs))
+    | _ => false
+
 /-- requests for which lighttpd claims RFC behaviour: the destination of a COPY/MOVE is not an
     existing collection, except an *empty* one as destination of a collection (everything else
     is lighttpd's documented merge / "copy into the collection" extension) -/
@@ -460,6 +509,22 @@ def isSuccess (s : Nat) : Bool := 200 ≤ s && s < 300 && s != 207
 def refRun (t : FS) : List Req → List Bool → FS
   | r :: rs, ok :: oks => refRun (if ok then rfcEffect t r else t) rs oks
   | _, _ => t
+
+/-- the reference run proper: which requests take effect is decided by the reference itself
+    (`rfcPre`), not by the statuses the implementation reports -/
+def refRunPre (t : FS) : List Req → FS
+  | [] => t
+  | r :: rs => refRunPre (if rfcPre t r then rfcEffect t r else t) rs
+
+/-- the success / failure decisions of the reference along a sequence -/
+def refDecisions (t : FS) : List Req → List Bool
+  | [] => []
+  | r :: rs => rfcPre t r :: refDecisions (if rfcPre t r then rfcEffect t r else t) rs
+
+/-- every request of the sequence is covered by the reference at the point it is issued -/
+def CoveredRun : Tree → List Req → Prop
+  | _, [] => True
+  | t, r :: rs => Conforming t r ∧ CoveredRun (step t r).2 rs
 
 /-- every request of the sequence is covered by the reference at the point it is issued and is not
     answered 207 Multi-Status -/
